@@ -116,6 +116,13 @@ def check(s):
     p = one(s.paths(b4, "PPO", "train_epoch"), con4)
     scans = [x for x in walk(p.ret) if isinstance(x, tuple) and x and x[0] == "scan"]
     s.ob("C09.4", con4, len(scans) == 1, "one scan over minibatches", loc4, key="one-scan", detail=str(len(scans)))
+    # every update of the epoch goes through that scan over index rows: no path of train_epoch hands train_batch anything else (a
+    # "single minibatch" short cut that trains on the whole flattened buffer uses all N samples where floor(N/B)*B are due)
+    direct = []
+    for p_all in live(s.paths(b4, "PPO", "train_epoch")):
+        direct += [x for x in walk(p_all.ret) if isinstance(x, tuple) and x and x[0] == "call" and x[1] == ("attr", self_, "train_batch")]
+    s.ob("C09.4", con4, not direct, "train_batch is reached only from the scan over minibatch index rows", loc4, key="update-outside-scan",
+         detail="; ".join(show(x, maxlen=120) for x in direct[:2]), necessary_for="exactly floor(N/B)*B of the N samples are used, each in at most one minibatch of B rows")
     if len(scans) == 1:
         sc = scans[0]
         flat = ("call", ("attr", ("param", "rollout_buffer"), "flatten_axes"), (), ())
